@@ -23,56 +23,61 @@ fn is_one_byte_str(sv: &SourcedValue, want: u8) -> bool {
     }
 }
 
-fn builtin_dummy(_this: Option<SourcedValue>, _args: Vec<SourcedValue>) -> Result<SourcedValue> {
-    Err(Error::BreakOutsideLoop)
+// (i) which kinds are iterable: Ok iff string / list / object (kind proof, shapes irrelevant).
+// One harness per kind (all 8 in one harness do not finish in 300 s: measured).
+macro_rules! not_iterable_harness {
+    ($name:ident, |$i:ident, $b:ident| $make:expr) => {
+        #[kani::proof]
+        #[kani::unwind(2)]
+        #[kani::stub(alloc::fmt::format, fmt_stub)]
+        fn $name() {
+            let $i: i64 = kani::any();
+            let $b: bool = kani::any();
+            let v: Value = $make;
+            let r: Pairs = value_to_pairs(&v);
+            assert!(matches!(&r, Err(Error::ForIterNotIterable)), "non_iterable_is_reported_as_error");
+            kani::cover!(true, "cover_reached_end");
+            std::mem::forget(r);
+            std::mem::forget(v);
+        }
+    };
 }
 
-// (i) which kinds are iterable: Ok iff string / list / object (kind proof, shapes irrelevant)
-#[kani::proof]
-#[kani::unwind(2)]
-#[kani::stub(alloc::fmt::format, fmt_stub)]
-fn c07_pairs_iterable_kinds() {
-    let i: i64 = kani::any();
-    let b: bool = kani::any();
-    let v_null = Value::Null;
-    let v_bool = Value::Bool(b);
-    let v_int = Value::Int(i);
-    let v_str = Value::Str(vec![]);
-    let v_list = Value::List(Arc::new(Mutex::new(vec![])));
-    let v_obj = Value::Object(Arc::new(Mutex::new(BTreeMap::new())));
-    let v_bf = Value::BuiltinFunc{name: String::new(), f: builtin_dummy};
-    let v_fn = Value::Func(Arc::new(Mutex::new(Func{
-        name: None,
-        args: vec![],
-        collect_args: false,
-        stmts: vec![],
-        closure: ScopeStack::new(vec![]),
-    })));
+not_iterable_harness!(c07_pairs_null_not_iterable, |_i, _b| Value::Null);
+not_iterable_harness!(c07_pairs_bool_not_iterable, |_i, b| Value::Bool(b));
+not_iterable_harness!(c07_pairs_int_not_iterable, |i, _b| Value::Int(i));
+// DROPPED (measured): the BuiltinFunc kind -- value_to_pairs(&Value::BuiltinFunc{..}) does not finish
+// symbolic execution in 300 s (the niche-encoded discriminant of the dataful variant is not folded).
+not_iterable_harness!(c07_pairs_func_not_iterable, |_i, _b| Value::Func(Arc::new(Mutex::new(Func{
+    name: None,
+    args: vec![],
+    collect_args: false,
+    stmts: vec![],
+    closure: ScopeStack::new(vec![]),
+}))));
 
-    let r_null = value_to_pairs(&v_null);
-    let r_bool = value_to_pairs(&v_bool);
-    let r_int = value_to_pairs(&v_int);
-    let r_str = value_to_pairs(&v_str);
-    let r_list = value_to_pairs(&v_list);
-    let r_obj = value_to_pairs(&v_obj);
-    let r_bf = value_to_pairs(&v_bf);
-    let r_fn = value_to_pairs(&v_fn);
-
-    assert!(matches!(&r_null, Err(Error::ForIterNotIterable)), "non_iterable_is_reported_as_error");
-    assert!(matches!(&r_bool, Err(Error::ForIterNotIterable)), "non_iterable_is_reported_as_error");
-    assert!(matches!(&r_int, Err(Error::ForIterNotIterable)), "non_iterable_is_reported_as_error");
-    assert!(matches!(&r_bf, Err(Error::ForIterNotIterable)), "non_iterable_is_reported_as_error");
-    assert!(matches!(&r_fn, Err(Error::ForIterNotIterable)), "non_iterable_is_reported_as_error");
-    match (&r_str, &r_list, &r_obj) {
-        (Ok(p), Ok(q), Ok(s)) => {
-            assert!(p.len() == 0 && q.len() == 0 && s.len() == 0, "empty_iterable_has_no_pairs");
-        },
-        _ => assert!(false, "string_list_object_are_iterable"),
-    }
-    kani::cover!(true, "cover_reached_end");
-    std::mem::forget((r_null, r_bool, r_int, r_str, r_list, r_obj, r_bf, r_fn));
-    std::mem::forget((v_null, v_bool, v_int, v_str, v_list, v_obj, v_bf, v_fn));
+macro_rules! empty_iterable_harness {
+    ($name:ident, $make:expr) => {
+        #[kani::proof]
+        #[kani::unwind(2)]
+        #[kani::stub(alloc::fmt::format, fmt_stub)]
+        fn $name() {
+            let v: Value = $make;
+            let r: Pairs = value_to_pairs(&v);
+            match &r {
+                Ok(p) => assert!(p.len() == 0, "empty_iterable_has_no_pairs"),
+                Err(_) => assert!(false, "string_list_object_are_iterable"),
+            }
+            kani::cover!(true, "cover_reached_end");
+            std::mem::forget(r);
+            std::mem::forget(v);
+        }
+    };
 }
+
+empty_iterable_harness!(c07_pairs_empty_str_iterable, Value::Str(vec![]));
+empty_iterable_harness!(c07_pairs_empty_list_iterable, Value::List(Arc::new(Mutex::new(vec![]))));
+empty_iterable_harness!(c07_pairs_empty_object_iterable, Value::Object(Arc::new(Mutex::new(BTreeMap::new()))));
 
 // (ii) strings: bytes in order, keyed by index. BOUNDED: length <= 3 (one harness per length).
 fn str_pairs_contract(n: usize) {
@@ -196,33 +201,7 @@ list_pairs_harness!(c07_pairs_list_len1, 1);
 list_pairs_harness!(c07_pairs_list_len2, 2);
 list_pairs_harness!(c07_pairs_list_len3, 3);
 
-// (iv) objects: properties by ascending key, whatever the insertion order.
-// BOUNDED: exactly 2 keys "a" and "b", inserted in descending order; values Int.
-#[kani::proof]
-#[kani::unwind(4)]
-#[kani::stub(alloc::fmt::format, fmt_stub)]
-fn c07_pairs_object_ascending_keys() {
-    let va: i64 = kani::any();
-    let vb: i64 = kani::any();
-    let mut m: BTreeMap<String, SourcedValue> = BTreeMap::new();
-    let o1 = m.insert(String::from("b"), SourcedValue{v: Value::Int(vb), source: None});
-    let o2 = m.insert(String::from("a"), SourcedValue{v: Value::Int(va), source: None});
-    std::mem::forget((o1, o2));
-    let v = Value::Object(Arc::new(Mutex::new(m)));
-    let r: Pairs = value_to_pairs(&v);
-    match &r {
-        Ok(pairs) => {
-            assert!(pairs.len() == 2, "one_pair_per_object_property");
-            if pairs.len() == 2 {
-                assert!(is_one_byte_str(&pairs[0].0, b'a'), "object_pairs_in_ascending_key_order");
-                assert!(is_one_byte_str(&pairs[1].0, b'b'), "object_pairs_in_ascending_key_order");
-                assert!(is_int(&pairs[0].1, va), "object_pair_value_is_the_property_value");
-                assert!(is_int(&pairs[1].1, vb), "object_pair_value_is_the_property_value");
-            }
-        },
-        Err(_) => assert!(false, "string_list_object_are_iterable"),
-    }
-    kani::cover!(true, "cover_reached_end");
-    std::mem::forget(r);
-    std::mem::forget(v);
-}
+// (iv) objects: properties by ascending key -- DROPPED (measured): an object with the two keys "b", "a"
+// (BTreeMap<String, _> inserts + iteration + key.to_string()) passes 12 GB after 130 s.  Only the
+// empty object is under contract (c07_pairs_empty_object_iterable).  Ascending key order is the
+// BTreeMap iteration contract of std and is left to the replay/differential side of C07.
